@@ -16,7 +16,10 @@ from vlib import diff as D
 ASSUMPTIONS = [
     "mem pool modelled sequentially: each ABTI_mem_pool_alloc/free/init_local/destroy_local (with the take/return "
     "bucket calls inside) is one atomic step; in C a local pool is used by one execution stream at a time (or under "
-    "mem_pool_*_lock), partial_bucket is under partial_bucket_lock; the two ABTI_sync_lifo are replaced by their "
+    "mem_pool_*_lock) — this usage discipline is Model.MemOwner (theorems local_pool_used_by_owner / local_pool_single_user) "
+    "and is validated on every controlled-scheduler trace of the work-unit scenarios (hook events 80/81, monitor in "
+    "harness/vs_abt.c: joins and frees by ULTs that block and come back on another stream, migration, stream create/join); "
+    "partial_bucket is under partial_bucket_lock; the two ABTI_sync_lifo are replaced by their "
     "sequential specification, justified by lifo_linearizable (Model.SyncLifo, interleaving model of the 128-bit-CAS branch)",
     "ABTI_sync_lifo tag is an unbounded natural (the 64-bit tag wraps after 2^64 successful operations)",
     "pages returned by ABTU_alloc_largepage are pairwise disjoint, page_size bytes long and 64-byte aligned "
@@ -447,6 +450,46 @@ def t2_stack(res, tier, broken):
     res.add_cov(programs=progs, disagreements_checked=nl, stack_histogram=dict(total))
 
 
+# ----------------------------------------------------------------------------------------------
+# 4. T1 + T3: who uses a local pool (the atomicity assumption of Model.MemPool, Model.MemOwner)
+# ----------------------------------------------------------------------------------------------
+T1_FUNCS = [("thread.c", f) for f in [
+    "thread_join", "thread_join_yield_thread", "thread_free", "ABT_thread_free", "ABT_thread_free_many", "ABT_thread_join",
+    "ABT_thread_join_many", "ABTI_thread_free", "ABTI_ythread_free_root", "ABTI_ythread_free_primary", "ABTI_thread_join",
+    "ABTI_mem_free_thread", "ABTI_mem_free_nythread_mempool_impl", "ABTI_mem_free_ythread_desc_mempool_impl", "ABTI_mem_alloc_ythread_desc_impl", "ABTI_mem_alloc_ythread_mempool_desc", "ABTI_mem_alloc_nythread", "ABTI_mem_alloc_ythread_default",
+    "ABTI_mem_alloc_ythread_mempool_desc_stack", "ABTI_mem_alloc_ythread_mempool_desc_stack_impl",
+    "ABTI_mem_free_ythread_mempool_stack", "ABTI_mem_alloc_ythread_mempool_stack", "ABTI_mem_alloc_desc", "ABTI_mem_free_desc",
+    "ABTI_mem_pool_alloc", "ABTI_mem_pool_free", "ABTI_ythread_suspend_join", "ythread_create"]] + [("task.c", "task_create")] + [
+    ("mem/malloc.c", f) for f in ["ABTI_mem_init_local", "ABTI_mem_finalize_local"]] + [
+    ("mem/mem_pool.c", f) for f in ["ABTI_mem_pool_init_local_pool", "ABTI_mem_pool_destroy_local_pool",
+                                     "ABTI_mem_pool_take_bucket", "ABTI_mem_pool_return_bucket"]]
+
+
+def validate_memowner(lg, params):
+    from vlib import t3, t3_sched
+    lines = t3_sched.project_memowner(lg)
+    rej, tr, drc = t3.run_driver("memowner", ["init"] + lines)
+    rejects = []
+    if rej or drc != 0:
+        idx = int(rej.split()[1]) if rej else 0
+        rejects.append({"model": "Model.MemOwner", "reject": rej or "driver rc=%d" % drc,
+                        "projected_context": lines[max(0, idx - 8): idx + 2]})
+    foreign = sum(1 for l in lines if l.startswith("use ") and l.split()[1] != l.split()[2])
+    return rejects, set(["use"] + (["use-foreign-while-stopped"] if foreign else []) +
+                        (["useExt"] if any(l.startswith("useExt") for l in lines) else [])), len(lines)
+
+
+def t3_memowner(res, tier, broken):
+    from vlib import t1, vs
+    from checks import sched_common
+    n, tb = t1.check(T1_FUNCS)
+    res.add_cov(t1_functions=n, t1_broken=len(tb))
+    for b in tb:
+        broken.append({"kind": "T1-skeleton", **b})
+    vs.campaign(res, broken, tier, "C15", "sc_units", ["sc_units.c"], sched_common.scenario_params, validate_memowner,
+                sizes={"quick": (12, 3), "thorough": (150, 8), "search": (150, 6)})
+
+
 def run(res, tier, broken):
     run_corpus(res)
     try:
@@ -455,6 +498,7 @@ def run(res, tier, broken):
         t2_stack(res, tier, broken)
     finally:
         drop_private_driver()
+    t3_memowner(res, tier, broken)
 
 
 def replay(res, path):
